@@ -2,12 +2,13 @@
 import random
 
 import p_recv
+import p_rsync
 import p_sync
 from vlib import Broken, Verdict
 
 JUDGE = ("type", "content")
 ARRS = ("pull", "push", "local", "lib", "libpush")
-UNI = [".", "a", "b", "d", "d/a"]
+UNI = [".", "a", "b", "d", "d-", "d/a"]
 
 
 def sig(o):
@@ -37,7 +38,8 @@ def data_cases(tier, seed):
         if sz >= 700:
             src_variants += [("zero", {"ed": "zero"}), ("period", {"ed": "period:%d" % rnd.choice([1, 3, 7, 700])}), ("high", {"ed": "high"})]
         for sname, skw in src_variants:
-            src = [reg("a", 1, sz, **skw), reg("b", 2, 10), {"p": "d", "t": "dir", "perm": 0o755, "mt": 1000, "ns": 0, "c": 0, "sz": 0, "tgt": ""}, reg("d/a", 3, max(1, sz // 3))]
+            src = [reg("a", 1, sz, **skw), reg("b", 2, 10), {"p": "d", "t": "dir", "perm": 0o755, "mt": 1000, "ns": 0, "c": 0, "sz": 0, "tgt": ""}, reg("d/a", 3, max(1, sz // 3)),
+                   reg("d-", 4, 33)]      # sorts between "d" and "d/a": the list order differs from the walk order
             priors = [("absent", None), ("identical-older", reg("a", 1, sz, mt=900, **skw)), ("unrelated-same-size", reg("a", 9, sz, mt=900)),
                       ("unrelated-small", reg("a", 9, 1000, mt=900)), ("emptied", reg("a", 9, 0, mt=900))]
             if sz > 10 and sname == "random":
@@ -61,6 +63,8 @@ def check(w):
     quick = w.tier == "quick"
     rnd = random.Random(w.seed)
     r, cov, scen = p_recv.design_and_generate(w, "c01")
+    # the composed session specification (handshake .. goodbye = RecvSide /\ Session with file identity)
+    rs = p_rsync.design(w, caps=((0, 0), (1, 1)) if quick else ((0, 0), (1, 1), (2, 3), (0, 2), (64, 64)))
     lines = []
     for k, s in enumerate(scen):
         arrs = ARRS if not quick else (ARRS[k % 5], ARRS[(k + 2) % 5])
@@ -95,7 +99,12 @@ def check(w):
                 "(sizes 0..1 MiB(+), random / all-zero / periodic / high-bit content, prior = absent, identical, unrelated, emptied, 9 kinds of edited copies, symlink or empty directory in the way); "
                 "non-trivial = the destination already held a regular file",
         "action_coverage": cov, "negative_controls": nneg, "worker_crashes": counts.get("crashed", 0),
+        "composed_spec": {"module": "Rsync.tla (family rs: 256 scenarios x pull/push)", "runs": [{"label": x["label"], "distinct": x["distinct"], "generated": x["generated"]} for x in rs],
+                          "action_coverage": rs[0]["cov"], "invariants": p_rsync.INVARIANTS.split(), "properties": p_rsync.PROPERTIES.split()},
     }
+    v.coverage["states"] += sum(x["distinct"] for x in rs)
+    v.coverage["transitions"] += sum(x["generated"] for x in rs)
+    v.coverage.update(p_sync.wire_coverage(counts))
     v.assumptions = ["file contents are pseudo-random functions of (content id, size) or derived edits; equality is judged by digest",
                      "names are plain ASCII in this check (arbitrary-byte names are not yet generated)"]
     return v.finish()
